@@ -158,6 +158,20 @@ EXTRA6 = {
 }
 for _k, _v in EXTRA6.items():
     EXTRA[_k] = EXTRA.get(_k, '') + _v
+EXTRA7 = {
+    'C01': ' the npz reader never converts stored values; the native decoder hands out a dictionary of its own per example.',
+    'C03': ' no tf.data stage is asked for deterministic=False with shuffling off.',
+    'C06': ' the npz writer does not consume its buffers before the save (a retried close writes everything).',
+    'C08': ' reported shard-list infos are accumulated in sequences, never in keyed / set collections.',
+    'C09': ' reported infos are accumulated in sequences only; a constructed writer holds no OS resource (fillers stay picklable).',
+    'C12': ' the tf.data interface makes the selection on every path to its return, for every format.',
+    'C14': ' the TFRecord interleave width handed to read_and_decode is bounded by file_parallelism, not by the number of shards.',
+    'C16': ' the by-name hash factory returns a newly constructed object per request and keeps none.',
+    'C17': ' every shard list is obtained through the loader that tests containment; the root is resolved at construction.',
+    'C20': ' no refusing validator is added to a persisted model.',
+}
+for _k, _v in EXTRA7.items():
+    EXTRA[_k] = EXTRA.get(_k, '') + _v
 for _pid, _t in EXTRA.items():
     _a, _b, _c = P[_pid]
     P[_pid] = (_a + _t, _b, _c)
